@@ -213,8 +213,10 @@ theorem retract_refines {S : List UInt8} {n : Nat} {i : Input} {st : Spec.State}
     have hdrop : S.drop (p - c.utf8Size) = String.utf8EncodeChar c ++ (Spec.encode st.rest ++ st.tail) := by
       rw [hrel.src, hp, encode_append, encode_singleton]
       have : p - c.utf8Size = (Spec.encode st.flushed ++ Spec.encode init).length := by simp; omega
-      rw [this, ← List.append_assoc, ← List.append_assoc, List.append_assoc _ (String.utf8EncodeChar c),
-        List.drop_left]
+      have e : Spec.encode st.flushed ++ ((Spec.encode init ++ String.utf8EncodeChar c) ++ (Spec.encode st.rest ++ st.tail))
+          = (Spec.encode st.flushed ++ Spec.encode init) ++ (String.utf8EncodeChar c ++ (Spec.encode st.rest ++ st.tail)) := by
+        simp only [List.append_assoc]
+      rw [this, e, List.drop_left]
     have hx0 : (String.utf8EncodeChar c)[0]? = some x := by
       have h0 : (S.drop (p - c.utf8Size))[0]? = S[p - c.utf8Size]? := by rw [List.getElem?_drop]; simp
       rw [hdrop, List.getElem?_append_left (by rw [length_encodeChar]; exact c.utf8Size_pos)] at h0
@@ -308,18 +310,24 @@ theorem lexeme_refines {S : List UInt8} {n : Nat} {i : Input} {st : Spec.State} 
 theorem step_refines {S : List UInt8} {n : Nat} {i : Input} {st : Spec.State} {p B cnt s : Nat}
     (hrel : Rel S n i st p B cnt s) (hnul : NulFree S) (op : Op)
     (hkeep : (Spec.encode (Spec.step st op).1.pending).length ≤ n) :
-    ∃ i' p' B' cnt' s', i.step op = .ok (i', (Spec.step st op).2) ∧
-      Rel S n i' (Spec.step st op).1 p' B' cnt' s' := by
+    ∃ i', i.step op = .ok (i', (Spec.step st op).2) ∧
+      ((Spec.step st op).2.isInvalid = false → ∃ p' B' cnt' s', Rel S n i' (Spec.step st op).1 p' B' cnt' s') := by
   cases op with
   | next => exact next_refines hrel hnul hkeep
-  | retract => exact retract_refines hrel
-  | lexeme => exact lexeme_refines hrel
-  | skip => exact skip_refines hrel
+  | retract => obtain ⟨i', p', B', cnt', s', h1, h2⟩ := retract_refines hrel; exact ⟨i', h1, fun _ => ⟨p', B', cnt', s', h2⟩⟩
+  | lexeme => obtain ⟨i', p', B', cnt', s', h1, h2⟩ := lexeme_refines hrel; exact ⟨i', h1, fun _ => ⟨p', B', cnt', s', h2⟩⟩
+  | skip => obtain ⟨i', p', B', cnt', s', h1, h2⟩ := skip_refines hrel; exact ⟨i', h1, fun _ => ⟨p', B', cnt', s', h2⟩⟩
 
-/-- forward simulation over a whole call sequence that keeps the pending lexeme within `n` bytes -/
-theorem run_refines {S : List UInt8} {n : Nat} (hnul : NulFree S) : ∀ (ops : List Op) (i : Input) (st : Spec.State)
-    (p B cnt s : Nat), Rel S n i st p B cnt s → Spec.Keeps n st ops →
-    i.run ops = (Spec.run st ops).map .ok := by
+/-- the outputs up to and including the first report of an ill-formed sequence (after it nothing is specified) -/
+def upToInvalid : List Out → List Out
+  | [] => []
+  | o :: os => if o.isInvalid then [o] else o :: upToInvalid os
+
+/-- forward simulation over a whole call sequence that keeps the pending lexeme within `n` bytes: the Model's
+trace agrees with the Spec's outputs up to and including the first report of an ill-formed sequence -/
+theorem run_refines_upTo {S : List UInt8} {n : Nat} (hnul : NulFree S) : ∀ (ops : List Op) (i : Input)
+    (st : Spec.State) (p B cnt s : Nat), Rel S n i st p B cnt s → Spec.Keeps n st ops →
+    (i.run ops).take (upToInvalid (Spec.run st ops)).length = (upToInvalid (Spec.run st ops)).map .ok := by
   intro ops
   induction ops with
   | nil => intros; rfl
@@ -327,11 +335,54 @@ theorem run_refines {S : List UInt8} {n : Nat} (hnul : NulFree S) : ∀ (ops : L
     intro i st p B cnt s hrel hkeep
     have hk1 : (Spec.encode (Spec.step st op).1.pending).length ≤ n :=
       hkeep _ (by simp [Spec.states])
-    obtain ⟨i', p', B', cnt', s', hstep, hrel'⟩ := step_refines hrel hnul op hk1
+    obtain ⟨i', hstep, hrel'⟩ := step_refines hrel hnul op hk1
     have hk2 : Spec.Keeps n (Spec.step st op).1 ops := by
       intro s' hs'; exact hkeep s' (by simp [Spec.states, hs'])
-    simp only [Input.run, hstep, Spec.run, List.map_cons]
-    rw [ih i' _ p' B' cnt' s' hrel' hk2]
+    simp only [Input.run, hstep, Spec.run, upToInvalid]
+    by_cases hinv : (Spec.step st op).2.isInvalid = true
+    · simp [hinv]
+    · have hf : (Spec.step st op).2.isInvalid = false := by simpa using hinv
+      obtain ⟨p', B', cnt', s', hr⟩ := hrel' hf
+      simp only [hf, Bool.false_eq_true, if_false, List.length_cons, List.take_succ_cons, List.map_cons]
+      rw [ih i' _ p' B' cnt' s' hr hk2]
 
+theorem Spec.step_tail (s : Spec.State) (op : Op) : (Spec.step s op).1.tail = s.tail := by
+  cases op with
+  | next => cases hr : s.rest <;> simp only [Spec.step, hr] <;> (try split) <;> rfl
+  | retract => cases hg : s.pending.getLast? <;> simp [Spec.step, hg]
+  | lexeme => rfl
+  | skip => rfl
+
+theorem Spec.step_noInvalid (s : Spec.State) (op : Op) (h : s.tail = []) : (Spec.step s op).2.isInvalid = false := by
+  cases op with
+  | next => cases hr : s.rest <;> simp [Spec.step, hr, h, Out.isInvalid]
+  | retract => cases hg : s.pending.getLast? <;> simp [Spec.step, hg, Out.isInvalid]
+  | lexeme => rfl
+  | skip => rfl
+
+theorem upToInvalid_run (s : Spec.State) (ops : List Op) (h : s.tail = []) :
+    upToInvalid (Spec.run s ops) = Spec.run s ops := by
+  induction ops generalizing s with
+  | nil => rfl
+  | cons op ops ih =>
+    simp only [Spec.run, upToInvalid, Spec.step_noInvalid s op h, Bool.false_eq_true, if_false]
+    rw [ih _ (by rw [Spec.step_tail]; exact h)]
+
+/-- for a well-formed source (no ill-formed tail) the whole trace is the Spec's -/
+theorem run_refines {S : List UInt8} {n : Nat} (hnul : NulFree S) (ops : List Op) (i : Input) (st : Spec.State)
+    (p B cnt s : Nat) (hrel : Rel S n i st p B cnt s) (htail : st.tail = []) (hkeep : Spec.Keeps n st ops) :
+    i.run ops = (Spec.run st ops).map .ok := by
+  have h := run_refines_upTo hnul ops i st p B cnt s hrel hkeep
+  rw [upToInvalid_run st ops htail] at h
+  have hlen : (i.run ops).length ≤ (Spec.run st ops).length := by
+    clear h hrel hkeep htail
+    induction ops generalizing i st with
+    | nil => simp [Input.run, Spec.run]
+    | cons op ops ih =>
+      simp only [Input.run, Spec.run]
+      split <;> simp
+      exact ih _ _
+  rw [List.take_of_length_le hlen] at h
+  exact h
 
 end AlgoVerif.C19
